@@ -263,6 +263,9 @@ class DocGen:
                 items.append(Item("bind", (nm,), (False,), SetNode([Item("bind", ("k",), (False,), self.leaf())], inline=True)))
             else:
                 items.append(Item("bind", (nm,), (False,), self.leaf()))
+        if self.quoted and r.random() < 0.12:
+            # a name that must be quoted and contains the selector character
+            items.insert(r.randrange(len(items) + 1), Item("bind", (r.choice(["user@host", "@x", "a@"]),), (True,), self.leaf()))
         if self.inherits and r.random() < 0.25:
             inh = Item("inherit", names=tuple(r.sample(["lib", "stdenv", "q1"], r.randint(1, 2))), src=r.choice([None, "pkgs"]))
             items.insert(r.randint(0, len(items)), inh)
